@@ -62,6 +62,11 @@ CHECKS = {
             "Generated header definitions (1..6 fields, widths 1..64, byte/offset placement, lengths aligned or not to the data width, byte swapping), data widths 8..128, 1..6 back-to-back packets of 1..12 beats, generated valid/ready schedules and garbage on idle sinks. Packetizer alone against an independent serialisation (low byte first, last placement), Depacketizer alone against reference byte streams, Packetizer->(FIFO)->Depacketizer round trip of header fields, payload and last; PacketFIFO: whole packets in order with their own params, released only after the last beat was written; packet.Arbiter/Dispatcher (1..4 ports, binary/one-hot, selector changing every cycle): no interleaving, destination fixed at the first beat, every packet exactly once.",
             "Trusted: Migen's simulator and reverse_bytes, harness agents. Header params constant over a packet; packets fit the FIFO. Known findings excluded by construction and replayed: header shorter than a data word; swapped fields wider than 8 bits with width % 8 != 0.",
             "DESIGN.md section 4 / C16"),
+    "C09": ("exploration",
+            "property-based testing (Hypothesis): flat byte-memory scoreboard + hold/stability monitors with an independent-channel AXI-Lite master agent and a multi-accept memory slave agent over generated histories and channel schedules",
+            "DUTs: AXILiteSRAM, AXILite2Wishbone, Wishbone2AXILite, AXILite2CSR, AXILiteDownConverter/UpConverter/Converter (ratios 2/4/8, widths 8..128), base-address offsets, word/byte Wishbone addressing. The master agent drives the five channels from independent generated schedules (AW/W skew incl. W first, up to K outstanding per direction, B/R back-pressure, garbage on idle channels) and serialises only dependent operations; the slave agent pre-asserts or withholds ready, queues up to Q requests, answers in order with schedule-driven latency and SLVERR ranges. Oracle: every read equals the flat memory, slave memory equals the model at the end, one response per request, errors propagate where the bridge has an error path, every valid/payload the DUT drives is held until ready (both sides), Wishbone requests stable until ack.",
+            "Trusted: Migen's simulator, harness agents. Known findings excluded by construction and replayed: AXILiteUpConverter lane selection with two reads in flight / W before AW. AXI4-full bridges (AXI2AXILite, AXILite2AXI, AXI2Wishbone, Wishbone2AXI) and AHB2Wishbone are not yet covered by this check.",
+            "DESIGN.md section 4 / C09"),
 }
 
 NOT_YET = {}
